@@ -3,6 +3,9 @@ from harness import faults as FT
 from harness import common as H
 from vlib import fakes as F
 
+# private-attribute groups (vlib/layout.py) the obligations of this module depend on
+LAYOUT = ['manager', 'coord', 'task', 'bex', 'tasksem', 'sws'] + ['legacy']
+
 EXPLANATION = (
     'C05: multipart uploads and multipart copies run through the real TransferManager against a fake S3 whose '
     'multipart table logs begin/end of create / part / complete / abort per upload id; one fault at a SYMBOLIC index '
